@@ -63,13 +63,13 @@ type Violation struct {
 type RunFunc func(ch vrt.Chooser) Outcome
 
 type Config struct {
-	Bound      int           // max deviations
-	MaxExec    int           // 0 = unlimited
-	Deadline   time.Time     // zero = none
-	ShardIdx   int           // this shard
-	ShardN     int           // number of shards (0/1 = no sharding)
-	StopOnViol bool          // stop at first violation
-	KeepViol   int           // max violations kept
+	Bound      int            // max deviations
+	MaxExec    int            // 0 = unlimited
+	Deadline   time.Time      // zero = none
+	ShardIdx   int            // this shard
+	ShardN     int            // number of shards (0/1 = no sharding)
+	StopOnViol bool           // stop at first violation
+	KeepViol   int            // max violations kept
 	Progress   func(s *Stats) // optional
 }
 
@@ -90,14 +90,51 @@ type Stats struct {
 	CapHit     string
 	Diverged   []string
 	ByCost     map[int]int // executions by number of deviations used
+	BoundDone  int         // largest deviation bound whose space was enumerated completely (-1: none)
+	Replayed   int         // executions of lower-cost schedules repeated by a later pass (not counted elsewhere)
 }
 
-// Explore enumerates every choice sequence with at most cfg.Bound deviations.
+// Explore enumerates every choice sequence with at most cfg.Bound deviations,
+// iterating the bound (0, 1, ... cfg.Bound): each pass is a complete depth-first
+// enumeration of its bound, so when a time or execution cap ends the search
+// the largest completed bound is known (Stats.BoundDone), and the first
+// violation found has the fewest deviations. A pass counts only the
+// executions that use exactly its bound (the cheaper ones were counted by the
+// earlier passes and are merely re-run as inner nodes of the tree).
 func Explore(run RunFunc, cfg Config) *Stats {
-	st := &Stats{Outcomes: map[string]int{}, Exhaustive: true, ByCost: map[int]int{}}
+	st := &Stats{Outcomes: map[string]int{}, Exhaustive: true, ByCost: map[int]int{}, BoundDone: -1}
 	if cfg.KeepViol == 0 {
 		cfg.KeepViol = 20
 	}
+	if cfg.Bound >= 16 {
+		// "unbounded" (every order of a small map, every alternative): one pass
+		exploreOnce(run, cfg, st, 0)
+		if st.Exhaustive {
+			st.BoundDone = cfg.Bound
+		}
+		return st
+	}
+	for b := 0; b <= cfg.Bound; b++ {
+		before := st.Executions
+		c := cfg
+		c.Bound = b
+		exploreOnce(run, c, st, b)
+		if !st.Exhaustive {
+			return st
+		}
+		st.BoundDone = b
+		if b > 0 && st.Executions == before && !(cfg.ShardN > 1) {
+			// no schedule needs b deviations: every larger bound is complete too
+			st.BoundDone = cfg.Bound
+			break
+		}
+	}
+	return st
+}
+
+// exploreOnce is one depth-first pass with a fixed bound; executions cheaper
+// than countFrom are run (their alternatives are the tree) but not counted.
+func exploreOnce(run RunFunc, cfg Config, st *Stats, countFrom int) {
 	type item struct {
 		prefix []PC
 		level  int // number of non-default choices in prefix (tree depth)
@@ -119,10 +156,22 @@ func Explore(run RunFunc, cfg Config) *Stats {
 		}
 		ch := &Chooser{Prefix: it.prefix}
 		out := run(ch)
-		isSharedRoot := it.level == 0 && cfg.ShardN > 1 && cfg.ShardIdx > 0
+		cost := 0
+		choices := make([]int, len(out.Points))
+		for i, p := range out.Points {
+			choices[i] = p.Chosen
+			if p.Chosen > 0 {
+				cost += p.AltCost
+			}
+		}
+		// the root execution belongs to shard 0 (elsewhere it only seeds the
+		// subtrees); executions cheaper than this pass's bound were counted before
+		isSharedRoot := (it.level == 0 && cfg.ShardN > 1 && cfg.ShardIdx > 0) || (cost < countFrom && ch.Diverged == "")
 		if isSharedRoot {
-			// the root execution belongs to shard 0; here it only seeds the subtrees
 			out.Violations = nil
+			if cost < countFrom {
+				st.Replayed++
+			}
 		} else {
 			st.Executions++
 			st.Steps += out.Steps
@@ -141,16 +190,6 @@ func Explore(run RunFunc, cfg Config) *Stats {
 		}
 		if !isSharedRoot {
 			st.Outcomes[out.Key]++
-		}
-		cost := 0
-		choices := make([]int, len(out.Points))
-		for i, p := range out.Points {
-			choices[i] = p.Chosen
-			if p.Chosen > 0 {
-				cost += p.AltCost
-			}
-		}
-		if !isSharedRoot {
 			st.ByCost[cost]++
 		}
 		for _, v := range out.Violations {
@@ -195,7 +234,6 @@ func Explore(run RunFunc, cfg Config) *Stats {
 			cfg.Progress(st)
 		}
 	}
-	return st
 }
 
 // FromChoices turns a recorded choice list into a replay chooser that does
